@@ -325,7 +325,33 @@ func gen(kind, keys string) func(t *rapid.T) Case {
 	}
 }
 
+// genSoak: one container instance driven for many hundreds of operations
+// (hundreds of removals and re-insertions over a handful of keys), for
+// counters, caches and rebuild thresholds that only a long life reaches.
+func genSoak(kind string) func(t *rapid.T) Case {
+	return func(t *rapid.T) Case {
+		c := Case{Kind: kind, Keys: "int"}
+		keys := rapid.IntRange(3, 14).Draw(t, "keys")
+		n := rapid.IntRange(300, 1000).Draw(t, "n")
+		pattern := rapid.SliceOfN(rapid.IntRange(0, 5), 4, 12).Draw(t, "pattern")
+		for i := 0; i < n; i++ {
+			switch pattern[i%len(pattern)] {
+			case 0, 1:
+				c.Ops = append(c.Ops, Op{O: "remove", Ks: []int{(i * 5) % keys}})
+			case 2:
+				c.Ops = append(c.Ops, Op{O: "remove", Ks: []int{i % keys, (i + 3) % keys}})
+			default:
+				c.Ops = append(c.Ops, Op{O: "put", K: (i * 3) % keys, V: i + 1})
+			}
+		}
+		return c
+	}
+}
+
 func TestGenerated(t *testing.T) {
+	for _, kind := range []string{"map", "set"} {
+		pbt.Run(t, pbt.Target[Case]{Name: kind + "/soak", Checks: 25, Gen: genSoak(kind), Check: check})
+	}
 	for _, kind := range []string{"map", "set"} {
 		for _, keys := range []string{"int", "string"} {
 			pbt.Run(t, pbt.Target[Case]{Name: kind + "/" + keys, Checks: 12000, Gen: gen(kind, keys), Check: check})
